@@ -175,7 +175,8 @@ def execute(params, script, inject=None, settle=None):
     cf = cfgs_for(params)
     if settle is None:
         settle = 3 + (params["timeout"] + 2 if params["timeout"] else 0)
-    k = sk.Kernel(script=script, inject=inject, term=params["term"], settle=settle, other_children=1 if params.get("other") else 0)
+    k = sk.Kernel(script=script, inject=inject, term=params["term"], settle=settle, other_children=1 if params.get("other") else 0,
+                  pid_order=params.get("pids", "ascending"))
     o = sk.run_arbiter(cf, k)
     return k, o
 
@@ -300,6 +301,8 @@ def param_sets(thorough):
             P.append({"workers": workers, "timeout": timeout, "term": term, "hup_workers": workers + 1})
     # the master also has a child that is not a worker (a helper forked by a server hook)
     P.append({"workers": 2, "timeout": 0, "term": "now", "hup_workers": 2, "other": True})
+    # the kernel's pid counter wrapped around: younger workers have numerically lower pids
+    P.append({"workers": 2, "timeout": 0, "term": "now", "hup_workers": 2, "pids": "descending"})
     return P
 
 
@@ -316,7 +319,7 @@ def run(ctx):
             tot[k] += st[k]
         viols += st["viols"]
         samples += st["samples"][:1]
-        per["w%(workers)d/t%(timeout)d/%(term)s" % params + ("/other" if params.get("other") else "")] = [st["states"], st["transitions"], st["mid_runs"]]
+        per["w%(workers)d/t%(timeout)d/%(term)s" % params + ("/other" if params.get("other") else "") + ("/pids-descending" if params.get("pids") else "")] = [st["states"], st["transitions"], st["mid_runs"]]
     cov = {
         "states": tot["states"], "transitions": tot["transitions"],
         "traces_validated_against_impl": 0,
